@@ -1,23 +1,31 @@
 (* C49 — Memcached key placement is consistent.
-   [nextj b key] stands for the float64 expression of jumpHash; the theorems
-   hold for every function with [b < nextj b key] (true of the Go expression:
-   the ratio 2^31 / ((key>>33)+1) is >= 1; not derived from IEEE semantics here,
-   the values used in the correspondence check come from the real expression).
+   [nextj b key] stands for the float64 expression of jumpHash; the general
+   theorems hold for every function with [b < nextj b key] on the domain where
+   the loop evaluates it, and C49_float_expression proves this for the IEEE-754
+   binary64 semantics of the Go expression (Flocq).
    Keys carry their xxhash value. [nat_less] is natsort.Compare. *)
 From Coq Require Import NArith ZArith List Bool Permutation String Lia.
 Import ListNotations.
-From Verif Require Import Lib.Corr Lib.Misc_Cmp Gen.C49 Model.C49 Proofs.C49.
+From Verif Require Import Lib.Corr Lib.Misc_Cmp Gen.C49 Model.C49 Proofs.C49 Proofs.C49_ieee.
 Open Scope Z_scope.
 
+(* The hypothesis on [nextj] is only needed where the code evaluates the
+   expression: on bucket numbers 0 <= b < N (N bounds the number of buckets) and
+   64-bit keys. C49_float_expression proves it for the IEEE-754 binary64 reading
+   of the Go expression with N = 2^53 - 1; the *_ieee theorems are the
+   instances without any hypothesis left. *)
+Definition nextj_ok (nextj : Z -> Z -> Z) (N : Z) : Prop :=
+  forall b k, 0 <= b < N -> 0 <= k < two64 -> b < nextj b k.
+
 (* jumpHash terminates (the fuel is never exhausted) with a bucket in [0, n). *)
-Theorem C49_jump_range : forall nextj, (forall b k, b < nextj b k) ->
-  forall key n, 1 <= n -> exists r, jump nextj key n = Some r /\ 0 <= r < n.
+Theorem C49_jump_range : forall nextj N, nextj_ok nextj N ->
+  forall key n, 1 <= n <= N -> exists r, jump nextj key n = Some r /\ 0 <= r < n.
 Proof. exact jump_range. Qed.
 Print Assumptions C49_jump_range.
 
 (* One more bucket: a key keeps its bucket or moves to the new one. *)
-Theorem C49_jump_consistent : forall nextj, (forall b k, b < nextj b k) ->
-  forall key n, 1 <= n ->
+Theorem C49_jump_consistent : forall nextj N, nextj_ok nextj N ->
+  forall key n, 1 <= n -> n + 1 <= N ->
   jump nextj key (n + 1) = jump nextj key n \/ jump nextj key (n + 1) = Some n.
 Proof. exact jump_consistent. Qed.
 Print Assumptions C49_jump_consistent.
@@ -25,15 +33,15 @@ Print Assumptions C49_jump_consistent.
 (* Looked up alone or in a batch: with at least one server, PickServerForKeys
    succeeds and files under server [a] exactly the keys PickServer sends to [a]
    (order and multiplicity kept); with no server both fail. *)
-Theorem C49_single_eq_batch : forall nextj, (forall b k, b < nextj b k) ->
-  forall addrs keys,
+Theorem C49_single_eq_batch : forall nextj N, 1 <= N -> nextj_ok nextj N ->
+  forall addrs keys, Z.of_nat (List.length addrs) <= N ->
   (addrs <> [] ->
      exists m, pick_for_keys nextj addrs keys = Some m
        /\ forall a, mget m a = filter (fun k => ostr_eqb (pick nextj addrs k) (Some a)) keys)
   /\ (addrs = [] -> pick_for_keys nextj addrs keys = None /\ forall k, pick nextj addrs k = None).
 Proof.
-  intros nextj H addrs keys. split.
-  - apply batch_eq_single. exact H.
+  intros nextj N HN H addrs keys HL. split.
+  - intro Hne. eapply batch_eq_single; eauto.
   - intro E. subst. split; reflexivity.
 Qed.
 Print Assumptions C49_single_eq_batch.
@@ -54,31 +62,67 @@ Qed.
 Print Assumptions C49_order_independent.
 
 (* Adding a server that sorts last only moves keys onto it. *)
-Theorem C49_add_last : forall nextj, (forall b k, b < nextj b k) ->
+Theorem C49_add_last : forall nextj N, 1 <= N -> nextj_ok nextj N ->
   forall servers new_list new,
+  Z.of_nat (List.length servers) + 1 <= N ->
   set_servers new_list = set_servers servers ++ [new] ->
   forall k, pick nextj (set_servers new_list) k = pick nextj (set_servers servers) k
             \/ pick nextj (set_servers new_list) k = Some new.
-Proof. intros nextj H servers new_list new E k. rewrite E. apply pick_push. exact H. Qed.
+Proof.
+  intros nextj N HN H servers new_list new HL E k. rewrite E.
+  apply (pick_push nextj N HN H). rewrite set_servers_length. exact HL.
+Qed.
 Print Assumptions C49_add_last.
 
 (* The same two facts through the boolean predicates that the check evaluates
    on the implementation's own outputs. *)
-Theorem C49_jump_pred : forall nextj, (forall b k, b < nextj b k) ->
-  forall key tab outs,
+Theorem C49_jump_pred : forall nextj N, nextj_ok nextj N ->
+  forall key tab outs, Z.of_nat (List.length outs) <= N ->
   map Some outs = map (jump nextj key) (seqZ 1 (List.length outs)) ->
   pred_ok (CJump key tab outs) = true.
 Proof. exact jump_pred. Qed.
 Print Assumptions C49_jump_pred.
 
-Theorem C49_add_last_pred : forall nextj, (forall b k, b < nextj b k) ->
+Theorem C49_add_last_pred : forall nextj N, 1 <= N -> nextj_ok nextj N ->
   forall servers new keys tab,
+  Z.of_nat (List.length servers) + 1 <= N ->
   set_servers (servers ++ [new]) = set_servers servers ++ [new] ->
   pred_ok (CAdd servers new keys tab
              (map (pick nextj (set_servers servers)) keys)
              (map (pick nextj (set_servers (servers ++ [new]))) keys)) = true.
 Proof. exact add_pred. Qed.
 Print Assumptions C49_add_last_pred.
+
+(* The float64 expression of jumpHash under IEEE-754 binary64 semantics (Flocq:
+   round to nearest even; exact conversion of integers below 2^53; truncating
+   int64 conversion) exceeds b wherever the loop evaluates it. Depends on the
+   classical real-number axioms of the standard library (through Flocq). *)
+Theorem C49_float_expression : nextj_ok nextj_ieee (2 ^ 53 - 1).
+Proof. exact nextj_ieee_dom. Qed.
+Print Assumptions C49_float_expression.
+
+(* Instances with no hypothesis left: termination and range, consistency, and
+   add-last for up to 2^53 - 2 buckets / servers. *)
+Theorem C49_jump_ieee : forall key n, 1 <= n -> n + 1 <= 2 ^ 53 - 1 ->
+  (exists r, jump nextj_ieee key n = Some r /\ 0 <= r < n)
+  /\ (jump nextj_ieee key (n + 1) = jump nextj_ieee key n \/ jump nextj_ieee key (n + 1) = Some n).
+Proof.
+  intros key n H1 H2. split.
+  - apply (jump_range nextj_ieee N64 nextj_ieee_dom). unfold N64. lia.
+  - apply (jump_consistent nextj_ieee N64 nextj_ieee_dom); unfold N64; lia.
+Qed.
+Print Assumptions C49_jump_ieee.
+
+Theorem C49_add_last_ieee : forall servers new_list new,
+  Z.of_nat (List.length servers) + 1 <= 2 ^ 53 - 1 ->
+  set_servers new_list = set_servers servers ++ [new] ->
+  forall k, pick nextj_ieee (set_servers new_list) k = pick nextj_ieee (set_servers servers) k
+            \/ pick nextj_ieee (set_servers new_list) k = Some new.
+Proof.
+  intros servers new_list new HL E k. rewrite E.
+  apply (pick_push nextj_ieee N64 N64_pos nextj_ieee_dom). rewrite set_servers_length. exact HL.
+Qed.
+Print Assumptions C49_add_last_ieee.
 
 (* The property as worded ("adding a server only moves keys onto the new
    server", "regardless of the order servers are listed in") is false of the
@@ -106,8 +150,8 @@ Print Assumptions C49_source_facts.
 (* Non-vacuity: a function meeting the hypothesis, a 3-server list on which
    natsort is a strict total order, and a jump through two buckets. *)
 Example C49_nonvacuous :
-  (forall b k : Z, b < (fun b _ => b + 2) b k)
+  nextj_ok (fun b _ => b + 2) 100
   /\ jump (fun b _ => b + 2) 7 5 = Some 4
   /\ strict_total_b nat_less [srv2; srv0; srv1] = true /\ nodup_b [srv2; srv0; srv1] = true
   /\ set_servers [srv2; srv0; srv1] = [srv0; srv1; srv2].
-Proof. split; [intros; lia|]. vm_compute. repeat split; reflexivity. Qed.
+Proof. split; [intros b k _ _; lia|]. vm_compute. repeat split; reflexivity. Qed.
